@@ -19,21 +19,22 @@ EnumToks == {"e_name", "e_num", "e_bad"}
 WrapToks == {"w_9", "w_bad"}
 TsToks   == {"t_ok", "t_bad"}
 PageToks == {"p_5", "p_bad"}
-BadToks  == {"i_bad", "b_bad", "e_bad", "w_bad", "t_bad", "p_bad"}
+UintToks == {"u_7", "u_max", "u_over", "u_neg"}     \* uint32: 7, 2^32-1, 2^32+1 (out of range), -1
+BadToks  == {"i_bad", "b_bad", "e_bad", "w_bad", "t_bad", "p_bad", "u_over", "u_neg"}
 
 \* the decoded text of a string token, and its form inside a multi-segment capture (%2F stays)
 StrOf(t) == CASE t = "s_plain" -> "abc" [] t = "s_slash" -> "a/b" [] t = "s_res" -> "a b&c=d?e%f#g+h;i:j@k"
               [] t = "s_uni" -> "é✓ü" [] OTHER -> ""
 MultiOf(t) == IF t = "s_slash" THEN "a%2Fb" ELSE StrOf(t)
 
-ScalarFields == {"name", "parent", "num", "flag", "kind_e", "wrapped", "ts", "childname", "page_size"}
+ScalarFields == {"name", "parent", "num", "flag", "kind_e", "wrapped", "ts", "childname", "page_size", "u32"}
 StringFields == {"name", "parent", "childname"}
 TokensOf(f) == CASE f \in StringFields -> StrToks [] f = "num" -> IntToks [] f = "flag" -> BoolToks
-                 [] f = "kind_e" -> EnumToks [] f = "wrapped" -> WrapToks [] f = "ts" -> TsToks [] f = "page_size" -> PageToks
+                 [] f = "kind_e" -> EnumToks [] f = "wrapped" -> WrapToks [] f = "ts" -> TsToks [] f = "page_size" -> PageToks [] f = "u32" -> UintToks
 
 \* query keys: proto names, JSON names, dotted paths
 FieldOfKey(k) == CASE k = "kindE" -> "kind_e" [] k = "pageSize" -> "page_size" [] k = "child.name" -> "childname" [] OTHER -> k
-QueryKeys == {"name", "parent", "num", "flag", "kind_e", "kindE", "wrapped", "ts", "child.name", "page_size", "pageSize", "tags"}
+QueryKeys == {"name", "parent", "num", "flag", "kind_e", "kindE", "wrapped", "ts", "child.name", "page_size", "pageSize", "tags", "u32"}
 
 \* rules of verif.v1.Svc
 Rules == {"Get", "Unary", "Post", "PostPut", "Query"}
